@@ -20,15 +20,18 @@
 package main
 
 import (
+	"crypto/sha256"
 	"errors"
 	"fmt"
 	"os"
 	"runtime"
+	"runtime/debug"
 	"runtime/pprof"
 	"sort"
 	"strings"
 	"sync"
 	"sync/atomic"
+	"time"
 
 	scom "github.com/polynetwork/poly/core/store/common"
 	"github.com/polynetwork/poly/core/store/leveldbstore"
@@ -368,12 +371,6 @@ func scratchWorld(init map[string]string) *world {
 
 // ---------------------------------------------------------------- driver
 
-type state struct {
-	init map[string]string
-	m    *model
-	path []string
-}
-
 var r *ev.Run
 
 // outcome-class / evaluation counters are kept lock-free (16 workers, ~10 increments per transition) and handed
@@ -402,8 +399,8 @@ func flushCounters() {
 	r.Evals(int(evalCnt.Load()))
 }
 
-func desc(s state, path []string) map[string]any {
-	return map[string]any{"store_preload": canon(s.init), "ops": path}
+func desc(init map[string]string, path []string) map[string]any {
+	return map[string]any{"store_preload": canon(init), "ops": path}
 }
 
 // joinClasses records which JoinIter situations the scans of this state contain (vacuity guard).
@@ -443,33 +440,57 @@ func joinClasses(m *model) {
 	}
 }
 
-func main() {
-	r = ev.Start("C10", "model_checking")
-	if f := os.Getenv("VERIF_CPUPROF"); f != "" {
-		fh, _ := os.Create(f)
-		_ = pprof.StartCPUProfile(fh)
-		defer pprof.StopCPUProfile()
-	}
-	ckeys = []string{"a", "ab", "b"}
-	outside := []string{"\x06"} // == exclusive limit of the "\x05" prefix range
-	if r.Thorough() {
-		ckeys = []string{"", "a", "ab", "b"} // contract key "" -> raw key == the bare prefix byte
-	}
+// cstate is what the BFS keeps per frontier node: pre-load id, one byte per event, hash of the model contents.
+// Model and real objects are re-derived from it on demand (lead's memory bound: no live objects per node).
+type cstate struct {
+	mask uint16
+	evs  string
+	h    [16]byte
+}
+
+type exploreStats struct {
+	tag                            string
+	st                             mc.Stats
+	transitions                    int64
+	scratchChecked, scratchSkipped int64
+	scratchMaxDepth, depth         int
+	events, inits                  int
+	ckeys, raw                     string
+}
+
+var memStop atomic.Bool
+
+func memWatch(limit uint64) {
+	debug.SetMemoryLimit(int64(limit * 3 / 4))
+	go func() {
+		var ms runtime.MemStats
+		for {
+			time.Sleep(3 * time.Second)
+			runtime.ReadMemStats(&ms)
+			if ms.Sys-ms.HeapReleased > limit {
+				memStop.Store(true)
+			}
+		}
+	}()
+}
+
+func setAlphabet(ck []string) {
+	ckeys, rawAll = ck, nil
 	for _, k := range ckeys {
 		rawAll = append(rawAll, pfx+k)
 	}
-	rawAll = append(rawAll, outside...)
+	rawAll = append(rawAll, "\x06") // == exclusive limit of the "\x05" prefix range; block layer / store only
 	sort.Strings(rawAll)
 	txPref = []string{"", "a", "ab", "b", "c"}
 	blkPrf = []string{"", pfx, pfx + "a", pfx + "ab", pfx + "b", "\x06", "\x07"}
-	depth := r.QT(4, 5)
-	r.Require("blk_join:tombstone_over_store_key", "blk_join:both", "blk_join:tombstone_only", "blk_join:mem_only", "blk_join:store_only",
-		"tx_join:tombstone_over_lower_key", "tx_join:both", "tx_join:tombstone_only", "tx_join:mem_only", "tx_join:lower_only",
-		"key_in_all_three_layers", "commit_tx_nonempty", "commit_blk_nonempty", "reset_tx_nonempty", "reset_blk_nonempty",
-		"backend_error_surfaced")
+}
 
+func explore(tag string, ck []string, depth, scratchMaxDepth int, fullMenu bool, workers, maxFrontier int) exploreStats {
+	setAlphabet(ck)
 	var events []string
-	add := func(o op) { events = append(events, o.String()); opTab[o.String()] = o }
+	var evOps []op
+	evIdx := map[string]int{}
+	add := func(o op) { evIdx[o.String()] = len(events); events = append(events, o.String()); evOps = append(evOps, o) }
 	for _, k := range ckeys {
 		add(op{"tx", "put", k, "x"})
 		add(op{"tx", "put", k, "yy"})
@@ -481,7 +502,7 @@ func main() {
 	for _, k := range rawAll {
 		add(op{"blk", "put", k, "x"})
 		add(op{"blk", "put", k, "yy"})
-		if r.Thorough() { // same MemDB path as Delete (nil vs empty slice is C09's business); kept at the tx layer in both tiers
+		if fullMenu { // same MemDB path as Delete (nil vs empty slice is C09's business); always kept at the tx layer
 			add(op{"blk", "put", k, ""})
 		}
 		add(op{"blk", "del", k, ""})
@@ -489,70 +510,99 @@ func main() {
 	add(op{"blk", "CommitTo", "", ""})
 	add(op{"blk", "Reset", "", ""})
 
-	// every subset of the raw keys pre-loaded in the store
-	var inits []state
-	for mask := 0; mask < 1<<len(rawAll); mask++ {
+	preload := func(mask uint16) map[string]string {
 		init := map[string]string{}
 		for i, k := range rawAll {
 			if mask>>i&1 == 1 {
 				init[k] = "s" + fmt.Sprint(i)
 			}
 		}
-		inits = append(inits, state{init, &model{cp(init), map[string]string{}, map[string]string{}}, nil})
+		return init
+	}
+	rebuild := func(s cstate) (map[string]string, *model, []string) {
+		init := preload(s.mask)
+		m := &model{cp(init), map[string]string{}, map[string]string{}}
+		path := make([]string, len(s.evs))
+		for i := 0; i < len(s.evs); i++ {
+			m.do(evOps[s.evs[i]])
+			path[i] = events[s.evs[i]]
+		}
+		return init, m, path
+	}
+	hash := func(m *model) (h [16]byte) {
+		x := sha256.Sum256([]byte(m.key()))
+		copy(h[:], x[:])
+		return
+	}
+	// every subset of the raw keys pre-loaded in the store
+	var inits []cstate
+	for mask := 0; mask < 1<<len(rawAll); mask++ {
+		s := cstate{mask: uint16(mask)}
+		_, m, _ := rebuild(s)
+		s.h = hash(m)
+		inits = append(inits, s)
 	}
 
-	var scratchChecked, scratchSkipped atomic.Int64
-	// brand-new leveldb + production 4 MiB overlay arena cost 2.5 ms (idle machine) to 15 ms (loaded) per state: done for every state up to this depth
-	scratchMaxDepth := r.QT(1, 3)
-	st := mc.BFS(mc.Config[state]{
+	es := exploreStats{tag: tag, depth: depth, scratchMaxDepth: scratchMaxDepth, events: len(events), inits: len(inits),
+		ckeys: fmt.Sprintf("%q", ckeys), raw: fmt.Sprintf("%q", rawAll)}
+	var transitions, scratchChecked, scratchSkipped atomic.Int64
+	known := map[[16]byte]struct{}{} // states of previous levels; written only between levels (Inv), read by workers
+	perLevel := map[int]int{}
+	frontierCapped := false
+	es.st = mc.BFS(mc.Config[cstate]{
 		Init: inits,
-		Events: func(s state, d int) []string {
-			// cross-check of pooling / small arena: re-derive this state from scratch with production constructors
+		Events: func(s cstate, d int) []string {
+			init, m, path := rebuild(s)
+			// cross-check of pooling / small arenas: re-derive this state from scratch with production constructors
 			if d <= scratchMaxDepth {
 				var got string
 				if rec, p := ev.Guard(func() {
-					w := scratchWorld(s.init)
-					for _, e := range s.path {
+					w := scratchWorld(init)
+					for _, e := range path {
 						w.do(opTab[e])
 					}
 					got = w.battery()
 					_ = w.store.Close()
 				}); p {
-					r.Violation("panic:from-scratch", map[string]any{"case": desc(s, s.path), "panic": fmt.Sprint(rec)})
-				} else if want := s.m.battery(); got != want {
-					r.Violation("views:from-scratch-replay:mismatch", map[string]any{"case": desc(s, s.path), "got": got, "want": want})
+					r.Violation("panic:from-scratch", map[string]any{"case": desc(init, path), "panic": fmt.Sprint(rec)})
+				} else if want := m.battery(); got != want {
+					r.Violation("views:from-scratch-replay:mismatch", map[string]any{"case": desc(init, path), "got": got, "want": want})
 				}
 				scratchChecked.Add(1)
 				evalCnt.Add(1)
 			} else {
 				scratchSkipped.Add(1)
 			}
-			joinClasses(s.m)
-			if d >= depth {
+			joinClasses(m)
+			if d >= depth || perLevel[d] > maxFrontier {
 				return nil
 			}
 			return events
 		},
-		Step: func(s state, e string) (state, bool) {
-			o := opTab[e]
-			nm := s.m.clone()
+		Step: func(s cstate, e string) (cstate, bool) {
+			ei := evIdx[e]
+			o := evOps[ei]
+			init, pm, ppath := rebuild(s)
+			nm := pm.clone()
 			nm.do(o)
-			path := append(append(make([]string, 0, len(s.path)+1), s.path...), e)
+			path := append(ppath, e)
+			next := cstate{mask: s.mask, evs: s.evs + string([]byte{byte(ei)}), h: hash(nm)}
+			transitions.Add(1)
 			var got string
-			var w *world
 			var h *pooled
 			if rec, p := ev.Guard(func() {
-				w, h = pooledWorld(s.init)
-				for _, pe := range s.path {
+				var w *world
+				w, h = pooledWorld(init)
+				for _, pe := range ppath {
 					w.do(opTab[pe])
 				}
 				w.do(o)
 				got = w.battery()
 			}); p {
-				r.Violation("panic:"+o.layer+"."+o.kind, map[string]any{"case": desc(s, path), "panic": fmt.Sprint(rec)})
-				return state{s.init, nm, path}, true // the pooled store is dropped
+				r.Violation("panic:"+o.layer+"."+o.kind, map[string]any{"case": desc(init, path), "panic": fmt.Sprint(rec)})
+				return next, true // the pooled store is dropped
 			}
-			putStore(s.init, h)
+			putStore(init, h)
 			evalCnt.Add(1)
 			if want := nm.battery(); got != want {
 				// name the first differing battery line: stable key per (op kind, observation kind)
@@ -567,33 +617,94 @@ func main() {
 						break
 					}
 				}
-				r.Violation("views:after-"+o.layer+"."+o.kind+":"+what+":mismatch", map[string]any{"case": desc(s, path), "got": got, "want": want})
+				r.Violation("views:after-"+o.layer+"."+o.kind+":"+what+":mismatch", map[string]any{"case": desc(init, path), "got": got, "want": want})
 			}
 			switch {
-			case o.kind == "Commit" && len(s.m.tx) > 0:
+			case o.kind == "Commit" && len(pm.tx) > 0:
 				class("commit_tx_nonempty")
-			case o.kind == "CommitTo" && len(s.m.blk) > 0:
+			case o.kind == "CommitTo" && len(pm.blk) > 0:
 				class("commit_blk_nonempty")
-			case o.kind == "Reset" && o.layer == "tx" && len(s.m.tx) > 0:
+			case o.kind == "Reset" && o.layer == "tx" && len(pm.tx) > 0:
 				class("reset_tx_nonempty")
-			case o.kind == "Reset" && o.layer == "blk" && len(s.m.blk) > 0:
+			case o.kind == "Reset" && o.layer == "blk" && len(pm.blk) > 0:
 				class("reset_blk_nonempty")
 			}
-			return state{s.init, nm, path}, true
+			// The transition has been executed and checked. A successor already known from an earlier level is not
+			// handed to mc (ok=false) so that mc does not retain it until the level is merged; transitions are counted here.
+			_, old := known[next.h]
+			return next, !old
 		},
-		Key:      func(s state) string { return s.m.key() },
+		Key:      func(s cstate) string { return string(s.h[:]) },
 		MaxDepth: depth + 1,
-		Workers:  runtime.NumCPU(),
-		Stop:     r.Expired,
-		Inv: func(s state, path []string) {
-			r.Case(s.m.key())
+		Workers:  workers,
+		Stop:     func() bool { return r.Expired() || memStop.Load() },
+		Inv: func(s cstate, path []string) {
+			known[s.h] = struct{}{}
+			perLevel[len(path)]++
+			if perLevel[len(path)] == maxFrontier+1 {
+				frontierCapped = true
+			}
 			if len(path) == 2 {
-				r.Sample(map[string]any{"store_preload": canon(s.init), "ops": path, "state": s.m.key()})
+				init, m, _ := rebuild(s)
+				r.Sample(map[string]any{"exploration": tag, "store_preload": canon(init), "ops": path, "state": m.key()})
 			}
 		},
 	})
-	if st.Truncated {
-		r.Capped(fmt.Sprintf("BFS cut by deadline at depth %d", st.MaxDepth))
+	if es.st.Truncated {
+		if memStop.Load() {
+			r.Capped(fmt.Sprintf("%s: BFS stopped by the memory bound at depth %d", tag, es.st.MaxDepth))
+		} else {
+			r.Capped(fmt.Sprintf("%s: BFS cut by deadline at depth %d", tag, es.st.MaxDepth))
+		}
+	}
+	if frontierCapped {
+		r.Capped(fmt.Sprintf("%s: a level exceeded %d states and was not expanded", tag, maxFrontier))
+	}
+	es.transitions, es.scratchChecked, es.scratchSkipped = transitions.Load(), scratchChecked.Load(), scratchSkipped.Load()
+	return es
+}
+
+func main() {
+	r = ev.Start("C10", "model_checking")
+	if f := os.Getenv("VERIF_CPUPROF"); f != "" {
+		fh, _ := os.Create(f)
+		_ = pprof.StartCPUProfile(fh)
+		defer pprof.StopCPUProfile()
+	}
+	r.Require("blk_join:tombstone_over_store_key", "blk_join:both", "blk_join:tombstone_only", "blk_join:mem_only", "blk_join:store_only",
+		"tx_join:tombstone_over_lower_key", "tx_join:both", "tx_join:tombstone_only", "tx_join:mem_only", "tx_join:lower_only",
+		"key_in_all_three_layers", "commit_tx_nonempty", "commit_blk_nonempty", "reset_tx_nonempty", "reset_blk_nonempty",
+		"backend_error_surfaced")
+	// resource bounds: thorough <= 8 workers / 8 GiB, quick all cores / 4 GiB
+	workers := runtime.NumCPU()
+	if r.Thorough() && workers > 8 {
+		workers = 8
+	}
+	memWatch(uint64(r.QT(4, 8)) << 30)
+	const maxFrontier = 400000
+
+	// brand-new leveldb + production 4 MiB overlay arena cost 2.5 ms (idle machine) to 15 ms (loaded) per state:
+	// done for every state up to scratchMaxDepth
+	var runs []exploreStats
+	base := []string{"a", "ab", "b"}
+	runs = append(runs, explore("base", base, r.QT(4, 6), r.QT(1, 3), r.Thorough(), workers, maxFrontier))
+	if r.Thorough() {
+		// contract key "" -> raw key == the bare prefix byte 0x05 (lower edge of every storage scan)
+		runs = append(runs, explore("with-empty-contract-key", []string{"", "a", "ab", "b"}, 3, 2, true, workers, maxFrontier))
+	}
+	var st mc.Stats
+	var transTotal, scratchTotal int64
+	var runNotes []map[string]any
+	for _, e := range runs {
+		st.States += e.st.States
+		if e.st.MaxDepth > st.MaxDepth {
+			st.MaxDepth = e.st.MaxDepth
+		}
+		transTotal += e.transitions
+		scratchTotal += e.scratchChecked
+		runNotes = append(runNotes, map[string]any{"exploration": e.tag, "contract_keys": e.ckeys, "raw_keys": e.raw, "store_preloads": e.inits,
+			"events_per_state": e.events, "depth_bound": e.depth, "states": e.st.States, "transitions": e.transitions, "per_depth": e.st.PerDepth,
+			"from_scratch_states_checked": e.scratchChecked, "from_scratch_up_to_depth": e.scratchMaxDepth, "states_beyond_from_scratch_depth": e.scratchSkipped})
 	}
 
 	// ---------------- environment deviation (bound 1): the backing store fails reads
@@ -643,16 +754,16 @@ func main() {
 
 	r.Assume("goleveldb (in-memory storage) is a correct ordered store; the pooled store is wiped and reloaded between replays, and every new state up to the stated depth is additionally re-derived on brand-new production objects",
 		"writing an empty value is the code base's delete convention (MemDB header comment): it must read absent and be applied as a delete on commit")
-	r.Note("from_scratch_cross_checks", map[string]any{"states_checked": scratchChecked.Load(), "states_beyond_cross_check_depth": scratchSkipped.Load(), "max_depth": scratchMaxDepth})
-	r.Note("per_depth", st.PerDepth)
+	r.Note("explorations", runNotes)
+	r.Note("resource_bounds", map[string]any{"workers": workers, "mem_limit_gib": r.QT(4, 8), "max_frontier_states": maxFrontier})
 	pprof.StopCPUProfile()
 	flushCounters()
 	r.Finish(map[string]any{
-		"rule":            "Get at tx/blk/store for every key + every prefix scan at tx and blk layer + full store scan == three-map reference, after every write/commit/reset",
-		"contract_keys":   fmt.Sprintf("%q", ckeys), "raw_keys": fmt.Sprintf("%q", rawAll), "store_preloads": len(inits),
-		"events_per_state": len(events), "tx_scan_prefixes": fmt.Sprintf("%q", txPref), "blk_scan_prefixes": fmt.Sprintf("%q", blkPrf),
-		"states":           st.States, "transitions": st.Transitions, "max_depth": st.MaxDepth,
-		"traces_validated_against_impl": int64(st.Transitions) + scratchChecked.Load(),
+		"rule":              "Get at tx/blk/store for every key + every prefix scan at tx and blk layer + full store scan == three-map reference, after every write/commit/reset",
+		"tx_scan_prefixes":  fmt.Sprintf("%q", txPref), "blk_scan_prefixes": fmt.Sprintf("%q", blkPrf),
+		"states":            st.States, "transitions": transTotal, "max_depth": st.MaxDepth,
+		"distinct_nontrivial":           st.States,
+		"traces_validated_against_impl": transTotal + scratchTotal,
 		"error_stub_cases":              errCases,
 	})
 }
